@@ -297,8 +297,22 @@ async fn resolve_combined_recursive<'a>(
         .await
     {
         Ok(resolved) => {
-            let soa_rr = resolved.soa_rr().cloned();
-            rrs.append(&mut resolved.rrs());
+            let mut soa_rr = resolved.soa_rr().cloned();
+            let mut r_rrs = resolved.rrs();
+            // an upstream reply can carry several aliases at once, so the
+            // continuation may walk back into a name already on our part of
+            // the chain without any question being asked about it a second
+            // time: stop there rather than repeat records
+            if let Some(pos) = r_rrs.iter().position(|r_rr| {
+                r_rr.rtype_with_data.rtype() == RecordType::CNAME
+                    && rrs.iter().any(|rr| {
+                        rr.rtype_with_data.rtype() == RecordType::CNAME && rr.name == r_rr.name
+                    })
+            }) {
+                r_rrs.truncate(pos);
+                soa_rr = None;
+            }
+            rrs.append(&mut r_rrs);
             Ok(ResolvedRecord::NonAuthoritative { rrs, soa_rr })
         }
         Err(_) => Err(ResolutionError::DeadEnd { question }),
